@@ -252,3 +252,82 @@ pub fn parse_at(at: &str) -> Option<(u32, i32, i32)> {
     let (r, c) = rc.split_once('C')?;
     Some((sheet, r.parse().ok()?, c.parse().ok()?))
 }
+
+
+// ---------------------------------------------------------------------------
+// the same graph with IF read lazily
+
+/// truth value of an IF condition when it can be told without evaluating a formula:
+/// a literal, or a reference to a cell holding a constant (or nothing)
+fn static_truth(cond: &Node, model: &Model, host: (u32, i32, i32)) -> Option<bool> {
+    match cond {
+        Node::BooleanKind(b) => Some(*b),
+        Node::NumberKind(n) => Some(*n != 0.0),
+        Node::ReferenceKind { sheet_index, absolute_row, absolute_column, row, column, .. } => {
+            let r = if *absolute_row { *row } else { *row + host.1 };
+            let c = if *absolute_column { *column } else { *column + host.2 };
+            match model.workbook.worksheets.get(*sheet_index as usize)?.cell(r, c) {
+                None | Some(Cell::EmptyCell { .. }) => Some(false),
+                Some(Cell::BooleanCell { v, .. }) => Some(*v),
+                Some(Cell::NumberCell { v, .. }) => Some(*v != 0.0),
+                _ => None,
+            }
+        }
+        _ => None,
+    }
+}
+
+fn collect_reads_lazy(node: &Node, model: &Model, host: (u32, i32, i32), names: &dyn Fn(&str) -> Option<u32>, out: &mut Vec<Rect>, opaque: &mut bool) {
+    use Node::*;
+    match node {
+        FunctionKind { kind, args } if format!("{kind:?}") == "If" && (args.len() == 2 || args.len() == 3) => {
+            collect_reads_lazy(&args[0], model, host, names, out, opaque);
+            match static_truth(&args[0], model, host) {
+                Some(true) => collect_reads_lazy(&args[1], model, host, names, out, opaque),
+                Some(false) => {
+                    if let Some(b) = args.get(2) {
+                        collect_reads_lazy(b, model, host, names, out, opaque)
+                    }
+                }
+                None => {
+                    for a in &args[1..] {
+                        collect_reads_lazy(a, model, host, names, out, opaque);
+                    }
+                }
+            }
+        }
+        OpRangeKind { left, right } | OpConcatenateKind { left, right } | OpSumKind { left, right, .. } | OpProductKind { left, right, .. } | OpPowerKind { left, right } | CompareKind { left, right, .. } => {
+            collect_reads_lazy(left, model, host, names, out, opaque);
+            collect_reads_lazy(right, model, host, names, out, opaque);
+        }
+        FunctionKind { args, .. } | NamedFunctionKind { args, .. } => {
+            for a in args {
+                collect_reads_lazy(a, model, host, names, out, opaque);
+            }
+        }
+        UnaryKind { right, .. } => collect_reads_lazy(right, model, host, names, out, opaque),
+        ImplicitIntersection { child, .. } | SpillRangeOperator { child } => collect_reads_lazy(child, model, host, names, out, opaque),
+        other => collect_reads(other, host.0, host.1, host.2, names, out, opaque),
+    }
+}
+
+/// `units` with the reads of every formula restricted to what a lazy IF evaluates
+pub fn units_lazy(model: &Model) -> Vec<Unit> {
+    let mut us = units(model);
+    let wb = &model.workbook;
+    for u in us.iter_mut() {
+        let f = match wb.worksheets.get(u.sheet as usize).and_then(|ws| ws.cell(u.row, u.col)) {
+            Some(Cell::CellFormula { f, .. }) | Some(Cell::ArrayFormula { f, .. }) => *f,
+            _ => continue,
+        };
+        if let Some((node, _)) = model.parsed_formulas.get(u.sheet as usize).and_then(|v| v.get(f as usize)) {
+            let lookup = |name: &str| wb.worksheets.iter().position(|w| w.get_name().eq_ignore_ascii_case(name)).map(|i| i as u32);
+            let mut reads = Vec::new();
+            let mut opaque = false;
+            collect_reads_lazy(node, model, (u.sheet, u.row, u.col), &lookup, &mut reads, &mut opaque);
+            u.reads = reads;
+            u.opaque = opaque;
+        }
+    }
+    us
+}
